@@ -117,7 +117,9 @@ func (c *Ctx) Check(rule, key string, p *Prog, pos token.Pos, cond bool, okReaso
 	return cond
 }
 
-func (c *Ctx) Infof(format string, a ...interface{}) { c.Info = append(c.Info, fmt.Sprintf(format, a...)) }
+func (c *Ctx) Infof(format string, a ...interface{}) {
+	c.Info = append(c.Info, fmt.Sprintf(format, a...))
+}
 
 // KnownFindings is /verif/known_findings.json.
 type KnownFindings struct {
